@@ -40,7 +40,7 @@ Proof.
   destruct (loc (threads c t)) eqn:Eo.
   - (* this handle is open: it holds the lock *)
     assert (Hl : lk (Sched.shared c) = Some t) by (apply Ht; reflexivity).
-    destruct o; cbn [hsem]; (split; [|split]); cbn [Sched.shared lk files results threads]; unfold push.
+    destruct o; cbn [hsem]; [ | | | | rewrite Hl ]; (split; [|split]); cbn [Sched.shared lk files results threads]; unfold push.
     + intro u. destruct (Nat.eq_dec u t) as [->|Hne]; [rewrite upd_same; cbn; tauto|].
       rewrite (upd_other _ t _ u Hne). apply Hopen.
     + rewrite scan_app, Hscan, Hl. cbn. rewrite Nat.eqb_refl. reflexivity.
@@ -59,6 +59,10 @@ Proof.
         intro E. inversion E. exfalso. apply Hne. symmetry. assumption.
     + rewrite scan_app, Hscan, Hl. cbn. rewrite Nat.eqb_refl. reflexivity.
     + rewrite writes_by_holder_app, Hw, Hl. cbn. rewrite Nat.eqb_refl. reflexivity.
+    + intro u. destruct (Nat.eq_dec u t) as [->|Hne]; [rewrite upd_same; cbn; tauto|].
+      rewrite (upd_other _ t _ u Hne). rewrite <- Hl. apply Hopen.
+    + rewrite scan_app, Hscan, Hl. reflexivity.
+    + exact Hw.
   - (* this handle is not open *)
     assert (Hl : lk (Sched.shared c) <> Some t) by (intro E; apply Ht in E; discriminate).
     destruct o; cbn [hsem].
@@ -91,6 +95,15 @@ Proof.
         rewrite (upd_other _ t _ u Hne). apply Hopen.
       * rewrite scan_app, Hscan. reflexivity.
       * exact Hw.
+    + destruct (lk (Sched.shared c)) as [h|] eqn:Elk; (split; [|split]); cbn [Sched.shared lk files results threads]; unfold push.
+      * intro u. destruct (Nat.eq_dec u t) as [->|Hne]; [rewrite upd_same; cbn; exact Ht|].
+        rewrite (upd_other _ t _ u Hne). apply Hopen.
+      * rewrite scan_app, Hscan. reflexivity.
+      * exact Hw.
+      * intro u. destruct (Nat.eq_dec u t) as [->|Hne]; [rewrite upd_same; cbn; exact Ht|].
+        rewrite (upd_other _ t _ u Hne). apply Hopen.
+      * rewrite scan_app, Hscan. reflexivity.
+      * rewrite writes_by_holder_app, Hw. cbn. rewrite Nat.eqb_refl. reflexivity.
 Qed.
 
 Theorem locked_handles_exclusive : forall progs sched,
@@ -127,4 +140,14 @@ Proof. vm_compute. repeat split. Qed.
 Example locked_example :
   results (Sched.shared (hrun true nolock_witness_sched (hinit nolock_witness_progs))) =
   [(0, ROpenOk); (1, ROpenRefused); (0, RWrote (WCommit 1%Z)); (1, RNoHandle); (0, RClosed); (1, RNoHandle)].
+Proof. vm_compute. reflexivity. Qed.
+
+(* the pinned tree's offline tools (no lock): a vacuum runs while a handle is open *)
+Lemma nolock_offline_under_open_handle :
+  let c := hrun false [0; 1; 0] (hinit [[HOpen; HCommit 1]; [HOffline]]) in
+  single_handle_history (results (Sched.shared c)) = false.
+Proof. vm_compute. reflexivity. Qed.
+Example locked_offline_example :
+  results (Sched.shared (hrun true [0; 1; 0; 0; 1] (hinit [[HOpen; HCommit 1; HClose]; [HOffline; HOffline]]))) =
+  [(0, ROpenOk); (1, ROfflineRefused); (0, RWrote (WCommit 1%Z)); (0, RClosed); (1, ROffline)].
 Proof. vm_compute. reflexivity. Qed.
